@@ -533,8 +533,69 @@ fn rhofail(rng: &mut Rng, iters: u64) {
     }
 }
 
+/// factor() through its public API on structured inputs: the contract of factor / factor_impl (product, order, no 0 / 1)
+fn factorapi(rng: &mut Rng, iters: u64) {
+    use yamaquasi::{factor, Algo, Preferences, Verbosity};
+    let mut prefs = Preferences::default();
+    prefs.verbosity = Verbosity::Silent;
+    let small: [u64; 12] = [3, 5, 7, 11, 13, 101, 257, 65537, 91033, 1000003, 6472621, 2147483647];
+    let mut inputs: Vec<(Uint, Algo)> = vec![];
+    // 2^64 + perfect powers: the low word alone is a perfect power
+    for k in [3u64, 9, 81, 1081 * 1081 * 1081, 5 * 5 * 5 * 5 * 5] {
+        for alg in [Algo::Auto, Algo::Ecm, Algo::Ecm128] {
+            inputs.push(((Uint::ONE << 64u32) + Uint::from(k), alg));
+        }
+    }
+    // numbers whose prime factors all have smooth p - 1 (P-1 finds everything at once)
+    for n in [271750259454572315341u128, 589222107493, 91033 * 6472621, 65537 * 786433] {
+        inputs.push((Uint::from(n), Algo::Pm1));
+        inputs.push((Uint::from(n), Algo::Auto));
+    }
+    for _ in 0..iters.min(300) {
+        // random products of 1..4 primes from the table, with repetitions
+        let k = 1 + rng.next() % 4;
+        let mut n = 1u128;
+        for _ in 0..k {
+            let p = small[(rng.next() % 12) as usize] as u128;
+            if n * p < 1u128 << 100 {
+                n *= p;
+            }
+        }
+        let alg = match rng.next() % 7 {
+            0 => Algo::Auto,
+            1 => Algo::Pm1,
+            2 => Algo::Ecm128,
+            3 if n < 1 << 63 => Algo::Rho,
+            4 if n < 1 << 63 => Algo::Squfof,
+            5 if n < 1 << 63 => Algo::Qs64,
+            _ => Algo::Auto,
+        };
+        inputs.push((Uint::from(n), alg));
+    }
+    for (n, alg) in inputs {
+        let desc = format!("factor({n}, {alg:?})");
+        match catch_unwind(AssertUnwindSafe(|| factor(n, alg, &prefs))) {
+            Err(_) => fail("factorapi", format!("{desc}: panic")),
+            Ok(Err(_)) => {}
+            Ok(Ok(v)) => {
+                let mut prod = Uint::ONE;
+                for (i, f) in v.iter().enumerate() {
+                    prod *= *f;
+                    if (*f <= Uint::ONE && n > Uint::ONE) || (i > 0 && v[i - 1] > *f) {
+                        fail("factorapi", format!("{desc} = {v:?}: element {f} (0, 1 or out of order)"));
+                    }
+                }
+                if prod != n {
+                    fail("factorapi", format!("{desc} = {v:?}: product {prod}"));
+                }
+            }
+        }
+    }
+}
+
 pub fn run(case: &str, rng: &mut Rng, iters: u64) -> bool {
     match case {
+        "factorapi" => factorapi(rng, iters),
         "rhofail" => rhofail(rng, iters),
         "gcdfactors" => gcdfactors(rng, iters),
         "f12" => f12(),
